@@ -16,6 +16,10 @@ import (
 
 var freeCb atomic.Int64
 
+// inObserver: a harness observer (metrics, callbacks) is reading the library's state on a library
+// goroutine; those reads are not the application's and are no yield sites.
+var inObserver atomic.Int32
+
 // elObj is one election object (an Inst may create several: restart).
 type elObj struct {
 	in                *Inst
@@ -47,6 +51,7 @@ type elObj struct {
 	termToken         string
 	lateAck           bool
 	polledClaim       bool // objects without Metrics: the flag as last polled
+	riseSeenInLock    *ClaimEvt
 }
 
 // Inst is one participant (InstanceID) of the plan.
@@ -160,8 +165,10 @@ func (m *obsMetrics) SetIsLeader(v float64, _ prometheus.Labels) {
 	o := m.o
 	d := o.in.d
 	stack := leaderFrames(2, 4)
+	inObserver.Add(1) // (the observer's own reads are no preemption points)
 	isL := o.el.IsLeader()
 	tok := o.el.Token()
+	inObserver.Add(-1)
 	d.mu.Lock()
 	defer d.mu.Unlock()
 	d.claimObserved(o, v == 1, isL, tok, stack, false)
@@ -241,12 +248,24 @@ func (d *Driver) pollClaimsLocked(stack string) {
 			if o.el == nil || !in.cfg.NoMetrics {
 				continue
 			}
+			if o.riseSeenInLock != nil && !strings.HasPrefix(stack, "parked:") {
+				// the rising edge was seen while its goroutine was parked inside the critical section
+				// that sets the flag first and the token after it: the term's token is what stands
+				// when that section is left
+				if tok := o.el.Token(); o.el.IsLeader() {
+					o.riseSeenInLock.Token, o.termToken = tok, tok
+				}
+				o.riseSeenInLock = nil
+			}
 			isL := o.el.IsLeader()
 			if isL == o.polledClaim {
 				continue
 			}
 			d.probe("polled_claim_edge")
-			d.claimObserved(o, isL, isL, o.el.Token(), stack, true)
+			d.claimObserved(o, isL, isL, o.el.Token(), strings.TrimPrefix(stack, "parked:"), true)
+			if isL && strings.HasPrefix(stack, "parked:") && len(d.h.Claims) > 0 {
+				o.riseSeenInLock = d.h.Claims[len(d.h.Claims)-1]
+			}
 		}
 	}
 }
@@ -340,7 +359,9 @@ func (s *scriptHealth) Check(ctx context.Context) bool {
 func (o *elObj) onPromote(ctx context.Context, token string) {
 	in := o.in
 	d := in.d
+	inObserver.Add(1)
 	isL := o.el.IsLeader()
+	inObserver.Add(-1)
 	d.mu.Lock()
 	o.promotes++
 	term := o.promotes
